@@ -340,7 +340,10 @@ fn render_all(f: &TheDrawFont) -> Vec<(u8, Option<(i32, i32)>, u64)> {
         b.is_terminal_buffer = false;
         let mut e = EditState::from_buffer(b);
         e.get_caret_mut().set_position((2, 1).into());
-        let sz = f.render(&mut e, ch).map(|s| (s.width, s.height));
+        let sz = match catch(|| f.render(&mut e, ch)) {
+            Ok(s) => s.map(|s| (s.width, s.height)),
+            Err(_) => Some((-1, -1)), // a panic while rendering shows as a size no glyph has
+        };
         let mut h = Fnv::new();
         let b = e.get_buffer();
         for y in 0..16 {
